@@ -5,6 +5,12 @@ import GocoinV.Model.BlockCheck
 open GocoinV GocoinV.Target GocoinV.Retarget GocoinV.BlockCheck GocoinV.Gen.ConsensusConsts
 namespace GocoinV.Proofs.C05
 
+/-- the weight BuildTxListExt leaves does not depend on the value `bl.TxCount` had on entry: the base weight reads the
+    counter after the `TxCount == 0` fallback (regenerated source fact), where it is the number of transactions parsed -/
+theorem builtWeight_eq (c : Nat) (txs : List Tx) : builtWeight c txs = blockWeight txs := by
+  have e : buildTxListReadsCountAfterFallback = true := by decide
+  simp [builtWeight, blockWeight, e]
+
 theorem nonceShapeOk_some (sw : Option (List (List Bytes))) (n : Bytes) (h : nonceShapeOk sw = some n) :
     sw = some [[n]] ∧ n.length = witnessNonceLen := by
   unfold nonceShapeOk at h
